@@ -44,6 +44,8 @@ CONSTANTS
     OrderedStart,  \* TRUE: calls start in the order 1, 2, ... (symmetry breaking, leg A only)
     CancelCalls,   \* set of calls whose context may be cancelled
     EnvTClose,     \* transport Close may be called
+    Eager,         \* TRUE: the environment moves only when the code cannot (leg B generator: what a controller that
+                   \* waits for the code to settle can force)
     Coarse,        \* TRUE: invisible local steps run at once (hand-made partial-order reduction, leg A only)
     WithHist
 
@@ -530,7 +532,6 @@ CallStep(c) ==
 CallProgress(c) ==   \* everything but Start (a call need not be started)
     \/ GetIdle(c) \/ LeaveCtx(c) \/ LeaveClosed(c) \/ Install(c) \/ ArmQ(c, "query") \/ WriteReq(c)
     \/ TakeReply(c) \/ SeeClose(c) \/ SeeCtx(c) \/ Retry(c) \/ Fail(c) \/ CallCweA(c) \/ CallCweB(c)
-    \/ WriteOk(c) \/ WriteErr(c)
 RdrStep(x) == Take(x) \/ ArmIdle(x, "idle") \/ SetIdle(x) \/ Hand(x) \/ RdrCweA(x) \/ RdrCweB(x)
 DialStep(d) == Register(d) \/ HandOver(d) \/ Abandon(d)
 CloserStep == TCloseLock \/ (\E x \in ConnIds : TCloseOne(x)) \/ TCloseEnd
@@ -538,11 +539,19 @@ DialRet(d) == DialOk(d) \/ DialErr(d)
 \* the armed deadline of a connection nobody answers eventually expires; a read on a dead/closed conn fails
 ReadEnds(x) == ReadFail(x, "err") \/ ReadFail(x, "timeout")
 
-Next ==
-    \/ \E c \in Calls : CallStep(c) \/ WriteOk(c) \/ WriteErr(c) \/ Cancel(c) \/ DialInvoke(c)
-    \/ \E x \in ConnIds : RdrStep(x) \/ ServerReply(x) \/ ReadEnds(x) \/ DialStep(x) \/ DialRet(x)
+\* steps of the code (including the failure of a read on a connection the code itself has closed)
+CodeStep ==
+    \/ \E c \in Calls : CallProgress(c) \/ DialInvoke(c)
+    \/ \E x \in ConnIds : RdrStep(x) \/ DialStep(x) \/ (closed[x] /\ ReadFail(x, "err"))
+    \/ CloserStep
+\* steps of the environment: the controller of the harness performs them
+EnvStep ==
+    \/ \E c \in Calls : Start(c) \/ WriteOk(c) \/ WriteErr(c) \/ Cancel(c)
+    \/ \E x \in ConnIds : ServerReply(x) \/ ReadEnds(x) \/ DialRet(x)
     \/ \E x \in ConnIds, k \in Kinds : Kill(x, k)
-    \/ TCloseStart \/ CloserStep
+    \/ TCloseStart
+
+Next == CodeStep \/ (EnvStep /\ (Eager => ~ENABLED CodeStep))
 
 Spec == Init /\ [][Next]_vars
 
@@ -550,7 +559,7 @@ Spec == Init /\ [][Next]_vars
 \* fairness of the disjunction of all progress steps is equivalent to per-process weak fairness, and far
 \* cheaper for TLC.  Not fair: Start, Cancel, Kill, TCloseStart, ServerReply (silence), idle timeouts.
 Progress ==
-    \/ \E c \in Calls : CallProgress(c) \/ DialInvoke(c)
+    \/ \E c \in Calls : CallProgress(c) \/ DialInvoke(c) \/ WriteOk(c) \/ WriteErr(c)
     \/ \E x \in ConnIds : RdrStep(x) \/ DialStep(x) \/ DialRet(x) \/ ReadFail(x, "err")
                             \/ (owe[x] /\ ReadFail(x, "timeout"))
     \/ CloserStep
